@@ -70,9 +70,51 @@ def _is_sink(n) -> str:
     return ''
 
 
+def _same_options(ctx) -> list[Inst]:
+    """OPTIONS  the loaders hand elements to the model through the same API with the same behavioural options: an
+    option of add_asset / add_association / add_attacker (anything but the element and its id) that one loader sets and
+    the others leave at the default makes the same content load differently (duplicate names renamed by one loader,
+    rejected by the other)."""
+    prog = ctx.prog
+    out = []
+    ID_KW = {'asset_id', 'attacker_id', 'node_id'}
+    per = {}
+    for (fname, props) in LOADERS:
+        if not prog.has_func(fname):
+            continue
+        f0 = prog.func(fname)
+        group = [f0] + [g for g in prog.all_funcs() if g.short.startswith(f0.short + '.')]
+        for g in group:
+            for n in own_nodes(g.node):
+                if isinstance(n, ast.Call) and isinstance(n.func, ast.Attribute) and n.func.attr in ('add_asset', 'add_association', 'add_attacker'):
+                    opts = {k.arg: stmt_text(k.value, 40) for k in n.keywords if k.arg and k.arg not in ID_KW}
+                    per.setdefault(n.func.attr, []).append((fname, props, n, opts))
+    for api, sites in per.items():
+        allopts = set()
+        for (_f, _p, _n, o) in sites:
+            allopts |= set(o)
+        for opt in sorted(allopts):
+            vals = {(fn, o.get(opt)) for (fn, _p, _n, o) in sites}
+            distinct = {v for (_fn, v) in vals}
+            construct = f"OPTIONS: every loader calls {api} with the same '{opt}'"
+            if len(distinct) > 1:
+                for (fn, pr, n, o) in sites:
+                    if opt in o:
+                        out.append(Inst(
+                            RULE, fn, construct, 'violation',
+                            msg=(f"'{stmt_text(n, 70)}' sets {opt}={o[opt]} while other loaders leave it at its default "
+                                 f"({sorted(f_ for (f_, v) in vals if v is None)}): the same content is accepted / renamed by "
+                                 f"one loader and rejected by another"),
+                            file=prog.func(fn).module.relpath, line=n.lineno, props=tuple(dict.fromkeys(pr + ('C18',)))))
+            else:
+                out.append(Inst(RULE, sites[0][0], construct, 'ok', file=prog.func(sites[0][0]).module.relpath,
+                                line=sites[0][2].lineno, props=('C18',)))
+    return out
+
+
 def run(ctx) -> list[Inst]:
     prog = ctx.prog
-    insts = []
+    insts = _same_options(ctx)
     _compute_helper_sinks(prog)
     scopes = []
     for (fname, props) in LOADERS:
